@@ -36,7 +36,7 @@ EXPLANATION = (
     "`if <test>: label = label[:amp]` is folded for every cut length n and every amp in (n-L, n): it must be true there (numeric form), or be the "
     "complete-entity form (no ';' after the last '&')."
 )
-NOT_DECIDED = "which part of a long URL is kept when shortening, that the label is a prefix of the URL, the content returned by an extra_params callable, html.escape itself"
+NOT_DECIDED = "which part of a long URL is kept when shortening; label-is-prefix only over the bounded URL family of C22.label-prefix; the content returned by an extra_params callable; html.escape itself"
 
 E = "tornado/escape.py"
 HTML_ENTITIES = {"&amp;", "&lt;", "&gt;", "&quot;", "&#x27;"}  # what html.escape(quote=True) emits (trusted base)
@@ -148,6 +148,7 @@ def rich_fold(e, env):
             right = rich_fold(rhs, env)
             try:
                 ok = {ast.Eq: lambda: left == right, ast.NotEq: lambda: left != right, ast.In: lambda: left in right, ast.NotIn: lambda: left not in right,
+                      ast.Lt: lambda: left < right, ast.LtE: lambda: left <= right, ast.Gt: lambda: left > right, ast.GtE: lambda: left >= right,
                       ast.Is: lambda: left is right or (left is None and right is None), ast.IsNot: lambda: not (left is right)}[type(op)]()
             except Exception as ex:
                 raise q.NotFoldable(str(ex))
@@ -170,10 +171,74 @@ def rich_fold(e, env):
                     return getattr(recv, e.func.attr)(*args)
                 except Exception as ex:
                     raise q.NotFoldable(str(ex))
-    if isinstance(e, ast.BinOp) and isinstance(e.op, ast.Add):
+    if isinstance(e, ast.Call) and not e.keywords and isinstance(e.func, ast.Attribute) and e.func.attr == "group" and len(e.args) == 1 and isinstance(e.args[0], ast.Constant):
+        key = "%s.group(%r)" % (q.dotted(e.func.value), e.args[0].value)
+        if key in env:
+            return env[key]
+        raise q.NotFoldable(key)
+    if isinstance(e, ast.Call) and not e.keywords and isinstance(e.func, ast.Name) and callable(env.get("@call")) and e.func.id not in ("callable", "len", "str", "tuple", "list", "set", "frozenset", "bool", "min", "max", "int"):
+        return env["@call"](e.func.id, [rich_fold(a, env) for a in e.args])
+    if isinstance(e, ast.Call) and not e.keywords:
+        if isinstance(e.func, ast.Name) and e.func.id == "callable" and len(e.args) == 1:
+            v = rich_fold(e.args[0], env)
+            if isinstance(v, (str, bytes, int, float, tuple, type(None))):
+                return False
+        if isinstance(e.func, ast.Name) and e.func.id in ("min", "max", "int") and e.args:
+            try:
+                return {"min": min, "max": max, "int": int}[e.func.id](*[rich_fold(a, env) for a in e.args])
+            except q.NotFoldable:
+                raise
+            except Exception as ex:
+                raise q.NotFoldable(str(ex))
+        if isinstance(e.func, ast.Attribute) and e.func.attr in ("split", "rsplit", "rfind", "find", "partition", "rpartition", "count", "index", "join", "replace"):
+            recv = rich_fold(e.func.value, env)
+            args = [rich_fold(a, env) for a in e.args]
+            if isinstance(recv, str):
+                try:
+                    r_ = getattr(recv, e.func.attr)(*[list(a) if isinstance(a, tuple) and e.func.attr == "join" else a for a in args])
+                except Exception as ex:
+                    raise q.NotFoldable(str(ex))
+                return tuple(r_) if isinstance(r_, list) else r_
+    if isinstance(e, ast.Subscript):
+        base = rich_fold(e.value, env)
+        try:
+            if isinstance(e.slice, ast.Slice):
+                lo = rich_fold(e.slice.lower, env) if e.slice.lower is not None else None
+                hi = rich_fold(e.slice.upper, env) if e.slice.upper is not None else None
+                st_ = rich_fold(e.slice.step, env) if e.slice.step is not None else None
+                return base[lo:hi:st_]
+            return base[rich_fold(e.slice, env)]
+        except q.NotFoldable:
+            raise
+        except Exception as ex:
+            raise q.NotFoldable(str(ex))
+    if isinstance(e, ast.IfExp):
+        return rich_fold(e.body, env) if rich_fold(e.test, env) else rich_fold(e.orelse, env)
+    if isinstance(e, ast.JoinedStr):
+        out = ""
+        for v in e.values:
+            if isinstance(v, ast.Constant):
+                out += str(v.value)
+            elif isinstance(v, ast.FormattedValue) and v.format_spec is None and v.conversion in (-1, 115):
+                out += str(rich_fold(v.value, env))
+            else:
+                raise q.NotFoldable("format spec")
+        return out
+    if isinstance(e, ast.UnaryOp) and isinstance(e.op, ast.USub):
+        return -rich_fold(e.operand, env)
+    if isinstance(e, ast.BinOp):
         l, r = rich_fold(e.left, env), rich_fold(e.right, env)
-        if isinstance(l, str) and isinstance(r, str):
-            return l + r
+        try:
+            if isinstance(e.op, ast.Add):
+                return l + r
+            if isinstance(e.op, ast.Sub):
+                return l - r
+            if isinstance(e.op, ast.Mult) and isinstance(l, (int, float)) and isinstance(r, (int, float)):
+                return l * r
+            if isinstance(e.op, ast.Mod) and isinstance(l, str):
+                return l % r
+        except Exception as ex:
+            raise q.NotFoldable(str(ex))
     raise q.NotFoldable(q.unparse(e))
 
 
@@ -213,8 +278,10 @@ def rule_make_link(ck, lk, mk, sub):
     for n in cfg.stmt_nodes(lambda n: n.kind == "stmt" and isinstance(n.ast, ast.Assign)):
         v = n.ast.value
         if q.is_call(v, mp + ".group") and len(v.args) == 1 and isinstance(v.args[0], ast.Constant) and len(n.ast.targets) == 1 and isinstance(n.ast.targets[0], ast.Name):
-            group_nodes[n.id] = (n.ast.targets[0].id, v.args[0].value)
-    if not any(g == 2 for _, g in group_nodes.values()):
+            group_nodes[n.id] = [(n.ast.targets[0].id, v.args[0].value)]
+        elif q.is_call(v, mp + ".group") and len(v.args) > 1 and all(isinstance(a_, ast.Constant) for a_ in v.args) and len(n.ast.targets) == 1 and isinstance(n.ast.targets[0], ast.Tuple) and len(n.ast.targets[0].elts) == len(v.args) and all(isinstance(t_, ast.Name) for t_ in n.ast.targets[0].elts):
+            group_nodes[n.id] = [(t_.id, a_.value) for t_, a_ in zip(n.ast.targets[0].elts, v.args)]
+    if not any(g == 2 for binds in group_nodes.values() for _, g in binds):
         raise AnalysisError("make_link: the protocol group is not bound to a local")
     n_anchor = n_plain = 0
     seen_cases = set()
@@ -223,9 +290,9 @@ def rule_make_link(ck, lk, mk, sub):
 
             def hook(n, env, proto=proto):
                 if n.id in group_nodes:
-                    name, g = group_nodes[n.id]
                     whole = (proto + "://" + MARK) if proto else ("www." + MARK)
-                    env[name] = {1: whole, 0: whole, 2: proto, 3: ("//" if proto else None)}.get(g, UNK)
+                    for name, g in group_nodes[n.id]:
+                        env[name] = {1: whole, 0: whole, 2: proto, 3: ("//" if proto else None)}.get(g, UNK)
                     return True
                 return None
 
@@ -245,7 +312,7 @@ def rule_make_link(ck, lk, mk, sub):
             case = "proto=%r require_protocol=%s" % (proto, rq)
             for r in rets:
                 for _facts, env in states.get(r.id, []):
-                    und = [t for t in env.get("@undecided", ()) if {x for x in q.names_in(ast.parse(t, mode="eval"))} & ({req, perm} | {nm for nm, g in group_nodes.values() if g == 2})]
+                    und = [t for t in env.get("@undecided", ()) if {x for x in q.names_in(ast.parse(t, mode="eval"))} & ({req, perm} | {nm for binds in group_nodes.values() for nm, g in binds if g == 2})]
                     if r in anchors:
                         n_anchor += 1
                         if und:
@@ -603,6 +670,186 @@ def rule_label_derived(ck, lk, mk):
     ck.floor(rid, n, 1, "label computations")
 
 
+def url_cases():
+    """Escaped URL texts spanning the shortening heuristics: 1-3 slashes after the scheme, no scheme (www.), short and
+    long hosts, path segments with '.', '?', and the two entities the regex admits at every offset near the cut points."""
+    out = []
+    tails = ["", "/", "/some/long/path/segment/here.html?x=1&amp;y=2", "/x/" + "y" * 40]
+    for k in range(0, 31):
+        tails.append("/" + "a" * k + "&quot;" + "b" * 40)
+    for k in range(0, 9):
+        tails.append("/" + "a" * k + "&amp;" + "b" * 40)
+    for pre in ("http:/", "http://", "http:///", "www."):
+        for host in ("example.com", "a" * 36 + ".com"):
+            for t in tails:
+                u = pre + host + t
+                if len(u) > 30:
+                    out.append(u)
+    return out
+
+
+def rule_label_prefix(ck, lk, mk, sub):
+    """Partial evaluation (constant folding) of make_link with shorten=True over a bounded family of concrete escaped
+    URLs: the folded label must be the URL itself or a prefix of it followed by '...', and must not end inside an
+    entity.  The match groups are obtained by applying the URL regex constant to the case text."""
+    import re as _re
+    from ..x_peval import peval, UNK, STOP
+
+    rid = "C22.label-prefix"
+    rname, node, pat, flags, tree = regex_info(ck, sub)
+    rx_ = _re.compile(pat, flags)
+    cfg = mk.cfg
+    mp = mk.params()[0]
+    lp_ = lk.params()
+    sh = [p for p in lp_ if "shorten" in p]
+    perm = [p for p in lp_ if "permitted" in p]
+    req = [p for p in lp_ if "require" in p]
+    ex = [p for p in lp_ if "extra" in p]
+    if not (sh and perm and req):
+        raise AnalysisError("linkify: shorten / protocol parameters not found")
+    rets = cfg.stmt_nodes(lambda n: n.kind == "stmt" and isinstance(n.ast, ast.Return))
+    anchors = {r.id: r for r in rets if _anchor(r.ast.value)}
+    group_nodes = {}
+    for n in cfg.stmt_nodes(lambda n: n.kind == "stmt" and isinstance(n.ast, ast.Assign)):
+        v = n.ast.value
+        if q.is_call(v, mp + ".group") and all(isinstance(a_, ast.Constant) for a_ in v.args) and v.args:
+            tg = n.ast.targets[0]
+            if len(v.args) == 1 and isinstance(tg, ast.Name):
+                group_nodes[n.id] = [(tg.id, v.args[0].value)]
+            elif isinstance(tg, ast.Tuple) and len(tg.elts) == len(v.args) and all(isinstance(t_, ast.Name) for t_ in tg.elts):
+                group_nodes[n.id] = [(t_.id, a_.value) for t_, a_ in zip(tg.elts, v.args)]
+    def generic_hook(n, env):
+        if n.kind != "stmt":
+            return None
+        st = n.ast
+        if isinstance(st, ast.Assign) and len(st.targets) == 1 and isinstance(st.targets[0], ast.Name):
+            try:
+                env[st.targets[0].id] = rich_fold(st.value, env)
+            except q.NotFoldable:
+                env[st.targets[0].id] = UNK
+            return True
+        if isinstance(st, ast.AugAssign) and isinstance(st.target, ast.Name) and isinstance(st.op, ast.Add):
+            try:
+                env[st.target.id] = rich_fold(ast.Name(id=st.target.id, ctx=ast.Load()), env) + rich_fold(st.value, env)
+            except (q.NotFoldable, TypeError):
+                env[st.target.id] = UNK
+            return True
+        return None
+
+    def generic_edge(n, kind, env):
+        try:
+            v = rich_fold(n.ast, env)
+        except q.NotFoldable:
+            return None
+        return STOP if bool(v) != (kind == "true") else None
+
+    PM = PURE_STR | {"group", "split", "rfind", "find", "replace", "format", "join", "partition", "rsplit", "count", "index"}
+    depth = [0]
+
+    def call_helper(name, args):
+        """value of a same-module helper for concrete arguments (its CFG is folded the same way)"""
+        h = mk.module.funcs.get(name) or mk.module.funcs.get(lk.qualname + ".<locals>." + name)
+        if h is None or depth[0] > 2:
+            raise q.NotFoldable("call %s" % name)
+        ps = h.params()
+        if len(args) > len(ps):
+            raise q.NotFoldable("call %s" % name)
+        init_ = {p_: a_ for p_, a_ in zip(ps, args)}
+        for k_, v_ in mk.module.assigns.items():
+            if isinstance(v_, ast.Constant) and k_ not in init_:
+                init_[k_] = v_.value
+        init_["@call"] = call_helper
+        depth[0] += 1
+        try:
+            st_ = peval(h.cfg, init_, hook=generic_hook, on_edge=generic_edge, follow_exc=False, refine=False, pure_methods=PM)
+            vals = set()
+            for r_ in h.cfg.stmt_nodes(lambda n: n.kind == "stmt" and isinstance(n.ast, ast.Return)):
+                for _f, env_ in st_.get(r_.id, []):
+                    vals.add(rich_fold(r_.ast.value, env_) if r_.ast.value is not None else None)
+        finally:
+            depth[0] -= 1
+        if len(vals) != 1:
+            raise q.NotFoldable("call %s has %d outcomes" % (name, len(vals)))
+        return vals.pop()
+
+    bad = {}
+    n_cases = n_short = 0
+    for case in url_cases():
+        mt = rx_.match(case)
+        if mt is None or mt.end() != len(case):
+            continue
+        n_cases += 1
+        groups = {i: mt.group(i) for i in range(0, (rx_.groups or 0) + 1)}
+
+        def fold(e, env):
+            return rich_fold(e, env)
+
+        def hook(n, env):
+            if n.kind != "stmt":
+                return None
+            st = n.ast
+            if n.id in group_nodes:
+                for name, g in group_nodes[n.id]:
+                    env[name] = groups.get(g, UNK)
+                return True
+            if isinstance(st, ast.Assign) and len(st.targets) == 1 and isinstance(st.targets[0], ast.Name):
+                try:
+                    env[st.targets[0].id] = fold(st.value, env)
+                except q.NotFoldable:
+                    env[st.targets[0].id] = UNK
+                return True
+            if isinstance(st, ast.AugAssign) and isinstance(st.target, ast.Name) and isinstance(st.op, ast.Add):
+                try:
+                    env[st.target.id] = rich_fold(ast.Name(id=st.target.id, ctx=ast.Load()), env) + fold(st.value, env)
+                except (q.NotFoldable, TypeError):
+                    env[st.target.id] = UNK
+                return True
+            return None
+
+        def on_edge(n, kind, env):
+            try:
+                v = fold(n.ast, env)
+            except q.NotFoldable:
+                return None
+            return STOP if bool(v) != (kind == "true") else None
+
+        init = {sh[0]: True, perm[0]: PERMITTED, req[0]: False, "@call": call_helper}
+        for k_, v_ in mk.module.assigns.items():
+            if isinstance(v_, ast.Constant):
+                init[k_] = v_.value
+        for i_, g_ in groups.items():
+            init["%s.group(%r)" % (mp, i_)] = g_
+        if ex:
+            init[ex[0]] = ""
+        states = peval(cfg, init, hook=hook, on_edge=on_edge, follow_exc=False, refine=False, pure_methods=PM)
+        for rid_, r in anchors.items():
+            for _f, env in states.get(rid_, []):
+                try:
+                    html_ = fold(r.ast.value, env)
+                except q.NotFoldable as e_:
+                    raise AnalysisError("make_link: the anchor is not a foldable function of the match for %r (%s)" % (case, e_))
+                if not isinstance(html_, str) or ">" not in html_ or not html_.endswith("</a>"):
+                    raise AnalysisError("make_link: folded anchor not understood: %r" % (html_,))
+                label = html_[html_.index(">") + 1:-len("</a>")]
+                why = None
+                if label != case:
+                    n_short += 1
+                    if not label.endswith("..."):
+                        why = "a changed label does not end in '...'"
+                    elif not case.startswith(label[:-3]):
+                        why = "the label is not a prefix of the URL"
+                    else:
+                        amp_ = label[:-3].rfind("&")
+                        if amp_ != -1 and ";" not in label[:-3][amp_:]:
+                            why = "the label ends inside a character entity"
+                if why and why not in bad:
+                    bad[why] = (case, label)
+    ck.floor(rid, n_cases, 50, "URL cases matched by the URL regex")
+    ck.floor(rid, n_short, 20, "cases in which the label was shortened")
+    ck.ob(rid, mk, mk.node, not bad, "shorten=True over %d concrete escaped URLs (%d shortened): every label is the URL or a prefix of it + '...', never cut inside an entity%s" % (n_cases, n_short, "" if not bad else "; " + "; ".join("%s: %r -> %r" % (w_, c_, l_) for w_, (c_, l_) in bad.items())),
+          construct="label-prefix %s" % sorted(bad))
+
+
 def _amp_lookups(fi):
     return [n for n in fi.cfg.stmt_nodes(lambda n: n.kind == "stmt" and isinstance(n.ast, ast.Assign) and isinstance(n.ast.value, ast.Call) and isinstance(n.ast.value.func, ast.Attribute) and n.ast.value.func.attr in ("rfind", "find", "rindex", "index") and n.ast.value.args and q.is_const(n.ast.value.args[0], "&"))]
 
@@ -728,11 +975,15 @@ def _is_found_test(c, amp):
 
 
 def run(ck):
+    from ..x_valuewalk import guard_obligations
+
+    guard_obligations(ck, [])
     ck.rule("C22.escape-first", "linkify applies the URL regex to xhtml_escape(text) and returns the substitution result")
     ck.rule("C22.plain-returns", "make_link returns either the match unmodified or exactly one anchor whose href (double-quoted) derives from the match")
     ck.rule("C22.protocol-guard", "the anchor return is reached only with a permitted protocol, or none when none is required; protocol-less hrefs get http://")
     ck.rule("C22.regex-entities", "the URL regex consumes '&' only inside complete entities that html.escape produces")
     ck.rule("C22.label-derived", "every computation of the visible label uses only slices/splits of the matched (escaped) text and markup-free literals; no unescape/escape/case/strip/replace re-coding")
+    ck.rule("C22.label-prefix", "constant folding of make_link (shorten=True) over a bounded family of concrete escaped URLs (1-3 slashes, www., long hosts, entities at every offset near the cut points): the label is the URL or a prefix of it followed by '...', and never ends inside an entity")
     ck.rule("C22.entity-clip", "after every truncation of the link label the last '&' is examined and the label cut there: numeric look-back covering the longest regex entity relative to the cut, or the complete-entity test (no ';' after the '&')")
     lk, mk, sub = _link_ctx(ck)
     rule_escape_first(ck, lk, mk, sub)
@@ -741,6 +992,7 @@ def run(ck):
     ck.note("longest entity admitted by the URL regex: %d characters" % lmax)
     rule_entity_clip(ck, lk, mk, sub, lmax)
     rule_label_derived(ck, lk, mk)
+    rule_label_prefix(ck, lk, mk, sub)
 
 
 def _in(qn, edit):
@@ -801,6 +1053,8 @@ MUTANTS = [
     ("http:// prefix added to every href", _in("linkify", replace_stmt(lambda st: isinstance(st, ast.If) and _u(st.test) == "not proto" and "http://" in _u(st), lambda st: st.body)), "C22.protocol-guard"),
     ("rejected match returned lower-cased", _in("linkify", replace_stmt(lambda st: isinstance(st, ast.Return) and _u(st) == "return url", lambda st: [parse_stmt("return url.lower()")], limit=1)), "C22.plain-returns"),
     ("href taken from the (shortened) label", _in("linkify", replace_expr(lambda n: isinstance(n, ast.JoinedStr), lambda n: parse_expr("f'<a href=\"{url}\"{params}>{url}</a>'"))), ("C22.plain-returns", "C22.protocol-guard")),
+    ("seeded C22-adv4: literal proto + '://' used as split offset and label prefix", _in("linkify", lambda fn: (replace_stmt(lambda st: isinstance(st, ast.If) and _u(st.test) == "proto" and "proto_len" in _u(st), lambda st: [parse_stmt("scheme = proto + '://' if proto else ''")])(fn) and replace_expr(lambda n: isinstance(n, ast.Subscript) and _u(n) == "url[proto_len:]", lambda n: parse_expr("url[len(scheme):]"))(fn) and replace_expr(lambda n: isinstance(n, ast.Subscript) and _u(n) == "url[:proto_len]", lambda n: parse_expr("scheme"))(fn))), "C22.label-prefix"),
+    ("path prefix taken from the second path segment", _in("linkify", replace_expr(lambda n: isinstance(n, ast.Subscript) and _u(n) == "parts[1][:8]", lambda n: parse_expr("parts[-1][:8]"))), "C22.label-prefix"),
     ("label shown unescaped ('nicer' display)", _in("linkify", replace_stmt(lambda st: isinstance(st, ast.AugAssign) and _u(st) == "url += '...'", lambda st: [parse_stmt("url = xhtml_unescape(url)"), st])), "C22.label-derived"),
     ("label lower-cased", _in("linkify", replace_stmt(lambda st: isinstance(st, ast.Assign) and _u(st) == "before_clip = url", lambda st: [st, parse_stmt("url = url.lower()")])), "C22.label-derived"),
     ("ellipsis as an entity-like literal with markup", _in("linkify", replace_expr(lambda n: q.is_const(n, "..."), lambda n: ast.Constant(value="<i>...</i>"))), ("C22.label-derived", "C22.entity-clip")),
